@@ -81,13 +81,16 @@ def explore(pid, cases, rep, nontrivial, extra_checks=()):
     return stats, dist
 
 
-def standard_run(pid, tier, seed, rep, replay, algos, nontrivial, rule, extra_cases=None, extra_checks=()):
+def standard_run(pid, tier, seed, rep, replay, algos, nontrivial, rule, extra_cases=None, extra_checks=(),
+                 keep=None):
     if replay is not None:
         cases = [(replay["case"]["desc"], replay["case"].get("tags", {}))]
     else:
         cases = families.routing_suite(tier, seed, algos=algos)
         if extra_cases:
             cases += extra_cases(tier, seed)
+        if keep is not None:
+            cases = [(d, t) for d, t in cases if keep(d, t)]
     stats, dist = explore(pid, cases, rep, nontrivial, extra_checks)
     samples = [{"desc": d, "tags": t} for d, t in cases[:: max(1, len(cases) // 3)][:3]]
     rep.coverage.update({
